@@ -70,7 +70,8 @@ def cases_v(cases, digs):
             "Definition cmp (x : Z * cfg * list stmt * list Z * bool * list Z) : Z :=\n"
             "  let '(p0, c, pr, i, g, d) := x in\n"
             "  (fix go (a b : list Z) (w : Z) : Z := match a, b with u :: a', v :: b' => (if u =? v then 0 else w) + go a' b' (2 * w) | [], [] => 0 | _, _ => 64 end) (digests (p:=p0) c pr i g) d 1\n"
-            "  + (if scoped_cmds 0 0 (gen_prog (p:=p0) c pr) then 0 else 32).\n"
+            "  + (if scoped_cmds 0 0 (gen_prog (p:=p0) c pr) then 0 else 32)\n"
+            "  + (if g then 0 else if vjustb i g (gen_prog (p:=p0) c pr) Sym.init then 0 else 128).\n"
             "Eval vm_compute in (map cmp cases).\n")
 
 
@@ -175,6 +176,8 @@ class Gen:
             n = cfg["n"]
             ins[1:] = [r.randrange(0, 2 ** max(1, n - 1)) for _ in range(nin - 1)]
             if r.random() < 0.5: ins[3] = r.randrange(1, max(2, 2 ** max(1, n // 2)))
+        for gi in pf.get("guard_inputs", [0]):
+            if gi != 0: ins[gi] = r.choice([0, 1, 1])
         self.regs = []          # (index, kind)
         self.ints = {}          # register -> value of int constants
         self.nreg = 0
@@ -310,7 +313,7 @@ class Gen:
                 g = self.pick(["lc"])
                 if g is None or r.random() < 0.5:
                     # fresh guard candidate from input 0 (usually 0/1)
-                    out.append(["input", self.new("lc"), "priv", 0])
+                    out.append(["input", self.new("lc"), "priv", r.choice(pf.get("guard_inputs", [0]))])
                     g = self.nreg - 1
                 saved = list(self.regs)
                 body = self.block(cfg, r.choice([1, 2, 3, 4]), depth + 1)
